@@ -332,6 +332,7 @@ def rule_progress(ctx, rep, facts):
     for q, is_none, cur, trace in facts.progress:
         by_cls.setdefault(q, []).append((is_none, cur, trace))
     n = 0
+    undecided = []
     for q, items in sorted(by_cls.items()):
         cls = model.classes[q]
         rep.instance('R-PROGRESS')
@@ -349,13 +350,78 @@ def rule_progress(ctx, rep, facts):
                 bad = ('returns None but leaves the cursor at line %d' % (cur + 1), trace)
             if not is_none and cur < 0:
                 bad = ('returns a result after net consumption of %d lines' % (cur + 1), trace)
+        witness = None
+        if bad is not None and bad[0].startswith('returns a result'):
+            # the abstract path may combine decisions of start() and read() about the same line that no line satisfies
+            # together (two spellings of one test): the failure is reported when a line realises it
+            witness = _stuck_line(ctx, cls)
+            if witness is None:
+                undecided.append({'class': cls.short, 'path': [str(x) for x in bad[1][:6]]})
+                bad = None
         rep.obligation('R-PROGRESS', bad is None, {'class': cls.short, 'paths': len(items)})
         if bad is not None:
             rd = cls.lookup('read')[1]
-            rep.find('R-PROGRESS', rd.short, 'net-consumption', '%s %s (decisions: %s): the dispatch loop of tokenize_block '
-                     'sees the same line again and never terminates' % (rd.short, bad[0], bad[1][:6]),
-                     loc(model.unit_of(rd), rd.node))
+            rep.find('R-PROGRESS', rd.short, 'net-consumption', '%s %s (decisions: %s)%s: the dispatch loop of tokenize_block '
+                     'sees the same line again and never terminates'
+                     % (rd.short, bad[0], bad[1][:6], (' - for instance on the line %r' % witness) if witness else ''),
+                     loc(model.unit_of(rd), rd.node), witness=witness)
+    rep.extra['progress_paths_not_realised'] = undecided
     rep.floor('R-PROGRESS', n, 100)
+
+
+def _stuck_line(ctx, cls):
+    """A line on which cls.start() accepts and cls.read() returns a result without consuming anything: candidates are
+    the shortest members of every alternative of the regular expressions the class applies and the string constants
+    its start() tests for, each as a line; start() and read() are folded on them."""
+    model = ctx.model
+    fw = model.cls('block_tokenizer.FileWrapper')
+    cands = []
+    st = cls.lookup('start')
+    consts = set()
+    if st is not None and st[0] == 'method':
+        for n_ in ast.walk(st[1].node):
+            if isinstance(n_, ast.Constant) and isinstance(n_.value, str) and 0 < len(n_.value) <= 10:
+                consts.add(n_.value)
+    it0 = Interp(model)
+    for c in cls.mro():
+        if not isinstance(c, ClassInfo):
+            continue
+        for name in list(c.attrs):
+            try:
+                v = it0.class_attr(cls, name)
+            except Exception:
+                continue
+            if isinstance(v, RxVal):
+                try:
+                    for br in [v.pattern]:
+                        w = rx.witness([rx.Lang(br, v.flags, mode='match', alphabet=rx.ALPHABET_CORE), rx.line_lang(rx.ALPHABET_CORE)],
+                                       [], rx.ALPHABET_CORE)
+                        if w is not None:
+                            cands.append(w)
+                except Exception:
+                    pass
+    for c_ in sorted(consts):
+        for tail in ('x\n', '\n'):
+            cands += [c_ + tail, ' ' + c_ + tail, c_.replace('    ', '\t') + tail]
+    active = blockproto.default_block_types(ctx)
+    for line in dict.fromkeys(cands):
+        if not line.endswith('\n'):
+            line += '\n'
+        it = Interp(model, loop_bound=8, while_bound=8)
+        it.reset_run(Oracle())
+        it.gstate[(PKG + '.block_token', '_token_types')] = list(active)
+        try:
+            if not it.truth(it.call(it.getattr(cls, 'start'), [line], {})):
+                continue
+            w = it.construct(fw, [[line, 'next\n']], {})
+            before = it.call(it.getattr(w, 'line_number'), [], {})
+            r = it.call(it.getattr(cls, 'read'), [w], {})
+            after = it.call(it.getattr(w, 'line_number'), [], {})
+            if r is not None and before == after:
+                return line
+        except Exception:
+            continue
+    return None
 
 
 # --------------------------------------------------------------------------- R-RAISE
